@@ -187,6 +187,17 @@ package parser
 //@   at return assert [C01] rule.Error.Err == nil && (rule.RecordingRule != nil || rule.AlertingRule != nil) ==> nullFree(recordNode) && nullFree(alertNode) && nullFree(exprNode)
 // a recording rule carries no for / keep_firing_for / annotations
 //@   at return assert [C01] rule.Error.Err == nil && rule.RecordingRule != nil ==> forPart == nil && keepFiringForPart == nil && annotationsPart == nil
+// C06 (a rule's line range encloses all of its fields): every scalar field node that is built has its own line envelope
+// (PositionRanges.Lines of its positions) taken before the next key is looked at - that envelope is what extends
+// the rule's last line
+//@   ghost lastNode *YamlNode
+//@   ghost pending bool
+//@   after call newYamlNode set lastNode = result
+//@   after call newYamlNode set pending = true
+//@   after call newPromQLExpr set lastNode = result.Value
+//@   after call newPromQLExpr set pending = true
+//@   after call PositionRanges.Lines set pending = pending && !(lastNode != nil && arg0 == lastNode.Pos)
+//@   loop 1 invariant [C06] !pending
 // C06: every field node is built from the field's own YAML node, with the file's offsets and the column after the key
 //@   at call newYamlNode assert [C06] arg0 == part && arg1 == offsetLine && arg2 == offsetColumn && arg3 == contentLines && arg4 == key.Column + 2
 //@   at call newPromQLExpr assert [C06] arg0 == part && arg1 == offsetLine && arg2 == offsetColumn && arg3 == contentLines && arg4 == key.Column + 2
